@@ -104,6 +104,8 @@ var specs = []fieldSpec{
 	{"map[int32]int32", pgen.MapF(pgen.Int32, sc(pgen.Int32)), []tmpl{{`{"3":7}`, val(map[int32]int32{3: 7})}, {`{"-2":-5}`, val(map[int32]int32{-2: -5})}}, nil},
 	{"map[string]nested", pgen.MapF(pgen.String, inner), []tmpl{{`{"k":{"F0":11,"F1":"in"}}`, mapOfInner(inner, func(v reflect.Value) { v.Field(0).SetInt(11); v.Field(1).SetString("in") })}}, nil},
 	{"map[string]nested2", pgen.MapF(pgen.String, inner2), []tmpl{{`{"k":{"F0":"s","F1":7,"F2":9}}`, mapOfInner(inner2, func(v reflect.Value) { v.Field(0).SetString("s"); v.Field(1).SetInt(7); v.Field(2).SetInt(9) })}}, nil},
+	// a message type that declares no fields of its own (the bytes are its own business): an empty template leaves it alone
+	{"RawMessage", pgen.F(sc(pgen.RawLeaf), pgen.Plain), []tmpl{{`{}`, nil}}, nil},
 	{"[]sint32", pgen.F(enc(pgen.Int32, "zigzag32"), pgen.Slice), []tmpl{{"[4,-5]", val([]int32{4, -5})}, {"[-1]", val([]int32{-1})}}, nil},
 }
 
@@ -255,6 +257,8 @@ func siblingFields(c *explore.Ctx) {
 		{"sfixed64", "int64", "sint64"},
 		{"[]int32", "[]sint32"},
 		{"map[string]nested", "map[string]nested2"},
+		{"int32", "RawMessage", "string"},
+		{"RawMessage", "nested"},
 		{"map[string]nested2", "int32", "map[string]nested"},
 		{"[]sint32", "int32", "[]int32"},
 	}
@@ -386,7 +390,7 @@ func templatesBody(c *explore.Ctx, idx []int, bases []int, orders int) {
 		var b []byte
 		for _, f := range fs {
 			sp := fieldByNum(m, int(f.num))
-			if sp != nil && sp.Wrap == pgen.Plain && sp.Elem.Kind != pgen.Message {
+			if sp != nil && sp.Wrap == pgen.Plain && sp.Elem.Kind != pgen.Message && sp.Elem.Kind != pgen.RawLeaf { // scalars only: "old" is not a message
 				// an earlier occurrence with another value, then the real one
 				b = protowire.AppendTag(b, f.num, f.typ)
 				switch f.typ {
